@@ -72,6 +72,15 @@ def pool() -> list[dict]:
                      "policy": {"kind": "table", "values": [0.02]}, "worker": {"tasks_limit": 1, "graceful": graceful},
                      "jobs": [_job(0, ["ok"], sleep=15.0), _job(1, ["ok"], sleep=0.0)], "horizon": 40.0, "stop": "signal",
                      "monitor_poll": 0.02, "enum_cap": 250})
+    # (appended after the others: scenario numbers are part of saved replays)
+    # the long execution is a *second* delivery of a message whose first delivery the actor answered eagerly (retry / reject): what
+    # the worker remembers of the first delivery must not change how the second one is stopped
+    for action, graceful in (("force_retry", 0.0), ("force_retry", 0.5), ("reject", 0.5), ("reschedule", 0.0)):
+        j = {"id": "j0", "actor": "a0", "queue": "q0", "retries": 1, "store_result": False,
+             "attempts": [{"k": "eager", "action": action, "program": [], "sleep": 0.0}, {"k": "ret", "v": 0, "sleep": 15.0}]}
+        base.append({"converter": "basic", "actors": [{"name": "a0", "queue": "q0", "shape": "plain"}],
+                     "policy": {"kind": "table", "values": [0.02]}, "worker": {"tasks_limit": 1, "graceful": graceful},
+                     "jobs": [j, _job(1, ["ok"], sleep=0.0)], "horizon": 40.0, "stop": "signal", "monitor_poll": 0.02, "enum_cap": 400})
     return base
 
 
